@@ -686,7 +686,7 @@ Proof.
   eapply orun_dead_ok; [apply dead_ok_init|exact E].
 Qed.
 
-Theorem out_fifo_state : forall uni client m, oreach uni client m ->
+Definition out_facts (m : outmap) : Prop :=
   (* only the head of the queue can be served, and it gets the next stream ID *)
   (forall w m' id fr, o_sync_wake m w = (m', RId id, fr) ->
      exists q, o_queue m = (w, true) :: q /\ queue_ids m' = map fst q /\ id = o_next m /\ fr = []) /\
@@ -696,12 +696,22 @@ Theorem out_fifo_state : forall uni client m, oreach uni client m ->
   (* a woken waiter never has to go back to sleep *)
   (forall w, snd (fst (o_sync_wake m w)) <> RParked) /\
   (* nobody but the head holds a wake-up, and the head holds one only if a stream can be opened *)
-  head_tok m.
+  head_tok m /\
+  (* never opened beyond the peer's limit *)
+  o_next m <= o_max m + 4.
+
+Lemma out_facts_inv : forall f m n K B, 0 <= f <= 3 -> InvOut f m n K B -> dead_ok m -> out_facts m.
 Proof.
-  intros uni client m R. destruct (oreach_inv _ _ _ R) as ((n & K & B & I) & D & _).
-  pose proof (first_outgoing_range uni client) as Hf.
+  intros f m n K B Hf I D. unfold out_facts.
   split; [intros; eapply out_served_is_head; eauto|].
   split; [intros; eapply out_no_lost_credit; eauto|].
   split; [intros; eapply out_wake_never_parks_again; eauto|].
-  destruct I as (_ & _ & _ & Ht & _). exact Ht.
+  destruct I as (Hn & Hr & HK & Ht & _). split; [exact Ht|].
+  destruct HK as [[H1 H2]|[H1 H2]]; lia.
+Qed.
+
+Theorem out_fifo_state : forall uni client m, oreach uni client m -> out_facts m.
+Proof.
+  intros uni client m R. destruct (oreach_inv _ _ _ R) as ((n & K & B & I) & D & _).
+  eapply out_facts_inv; eauto using first_outgoing_range.
 Qed.
